@@ -7,7 +7,11 @@ package genbank
 // markers), a printer to INSDC text, and a strict character-level reader and
 // evaluator (c02Eval). None of it calls or copies poly's parser, printer or
 // evaluator. The clauses are executed on the real parseLocation,
-// Sequence.AddFeature, Feature.GetSequence and BuildLocationString.
+// Sequence.AddFeature, Feature.GetSequence and BuildLocationString, and, for
+// locations parsed from GenBank text, on the real Parse: an independent writer
+// (c02Record) lays the location out in the feature table of a flat-file
+// record, broken after commas into lines of at most 58 columns as the format
+// has it, and the features Parse returns are asked for their sequences.
 
 import (
 	"errors"
@@ -17,6 +21,7 @@ import (
 	"strconv"
 	"strings"
 	"sync"
+	"sync/atomic"
 	"testing"
 
 	"github.com/TimothyStiles/poly"
@@ -534,11 +539,12 @@ func c02Shape(x *c02Node) string {
 }
 
 type c02Runs struct {
-	parseEval, parsePartial, structEval, build *verifRun
-	harness                                    sync.Once
-	harnessMsg                                 string
-	mu                                         sync.Mutex
-	count                                      map[string]int
+	parseEval, parsePartial, structEval, build, textEval *verifRun
+	textFailures                                         int64
+	harness                                              sync.Once
+	harnessMsg                                           string
+	mu                                                   sync.Mutex
+	count                                                map[string]int
 }
 
 // report classifies a failing expression by its smallest failing parts and
@@ -629,6 +635,219 @@ func (r *c02Runs) check(parent string, x *c02Node, memo map[string]bool) {
 			r.report(r.build, parent, x, memo, func(y *c02Node, d bool) string { _, _, p := c02StructCheck(parent, y); return p })
 		}
 	}
+}
+
+// ------------------------------------------------------ GenBank text ----
+
+// c02LocCols is the width of the location field of a feature table line
+// (columns 22-79).
+const c02LocCols = 58
+
+// c02WrapLoc lays a location text out as the flat file does: broken after
+// commas (at any nesting depth), as many pieces on a line as fit in cols
+// columns. ok = false when a comma-free piece is longer than the field.
+func c02WrapLoc(text string, cols int) (lines []string, ok bool) {
+	cur, start := "", 0
+	for i := 0; i < len(text); i++ {
+		if text[i] != ',' && i != len(text)-1 {
+			continue
+		}
+		piece := text[start : i+1]
+		start = i + 1
+		if len(piece) > cols {
+			return nil, false
+		}
+		if cur != "" && len(cur)+len(piece) > cols {
+			lines = append(lines, cur)
+			cur = ""
+		}
+		cur += piece
+	}
+	return append(lines, cur), true
+}
+
+type c02TextFeat struct {
+	key   string
+	lines []string // location, line by line
+}
+
+// c02Record writes a flat-file record (NCBI layout: 12-column keyword field,
+// feature key in column 6, location and qualifiers in column 22, ORIGIN rows
+// of 60 lower-case letters in groups of 10, // terminator) holding the parent
+// and the features, each with one /label qualifier.
+func c02Record(parent string, feats []c02TextFeat) string {
+	var b strings.Builder
+	b.Grow(len(parent)*5/4 + 1024)
+	b.WriteString(fmt.Sprintf("LOCUS       %-16s %11d bp    %-6s  %-8s %s %s\n", "c02rec", len(parent), "DNA", "linear", "UNA", "01-JAN-2000"))
+	b.WriteString("DEFINITION  location test record.\nACCESSION   C02\nVERSION     C02.1\nKEYWORDS    .\n")
+	b.WriteString("SOURCE      synthetic construct\n  ORGANISM  synthetic construct\n")
+	b.WriteString("FEATURES             Location/Qualifiers\n")
+	const indent = "                     " // 21 blanks
+	for fi, f := range feats {
+		for i, ln := range f.lines {
+			if i == 0 {
+				b.WriteString(fmt.Sprintf("     %-16s%s\n", f.key, ln))
+			} else {
+				b.WriteString(indent + ln + "\n")
+			}
+		}
+		b.WriteString(indent + "/label=\"f" + strconv.Itoa(fi+1) + "\"\n")
+	}
+	b.WriteString("ORIGIN\n")
+	low := strings.ToLower(parent)
+	for i := 0; i < len(low); i += 60 {
+		num := strconv.Itoa(i + 1)
+		b.WriteString("         "[:9-len(num)] + num)
+		for j := i; j < i+60 && j < len(low); j += 10 {
+			e := j + 10
+			if e > len(low) {
+				e = len(low)
+			}
+			b.WriteByte(' ')
+			b.WriteString(low[j:e])
+		}
+		b.WriteByte('\n')
+	}
+	b.WriteString("//\n")
+	return b.String()
+}
+
+// c02TextCheck judges Parse/post/location-eval on the record that holds x as
+// its first feature, laid out on lines of at most cols columns, and a plain
+// span as its second. lines = 0 when x cannot be laid out (a comma-free piece
+// longer than the field); such a case is outside the domain.
+func c02TextCheck(parent string, x *c02Node, cols int, detail bool) (lines int, problem string) {
+	text := c02Print(x)
+	want, err := c02Eval(parent, text)
+	if err != nil {
+		return 1, "HARNESS: oracle rejects its own text " + text + ": " + err.Error()
+	}
+	locLines, ok := c02WrapLoc(text, cols)
+	if !ok {
+		return 0, ""
+	}
+	m := 3
+	if m > len(parent) {
+		m = len(parent)
+	}
+	after := "1.." + strconv.Itoa(m)
+	wants := []string{strings.ToLower(want), strings.ToLower(parent[:m])}
+	rec := c02Record(parent, []c02TextFeat{{"misc_feature", locLines}, {"misc_feature", []string{after}}})
+	var seq poly.Sequence
+	if p := c02Try(func() { seq = Parse([]byte(rec)) }); p != "" {
+		return len(locLines), "Parse of the record: " + p
+	}
+	for i, w := range wants {
+		if i >= len(seq.Features) {
+			problem = fmt.Sprintf("Parse returns %d feature(s), the record states 2", len(seq.Features))
+			if detail && len(seq.Features) > 0 {
+				problem += "; location of feature 1 read as " + c02Clip(seq.Features[0].GbkLocationString)
+			}
+			return len(locLines), problem
+		}
+		var got string
+		if p := c02Try(func() { got = seq.Features[i].GetSequence() }); p != "" {
+			return len(locLines), fmt.Sprintf("GetSequence of feature %d: %s", i+1, p)
+		}
+		if got != w {
+			problem = fmt.Sprintf("feature %d differs", i+1)
+			if detail {
+				problem = fmt.Sprintf("feature %d: GetSequence = %s, INSDC reading = %s; location read as %s", i+1, c02Clip(got), c02Clip(w), c02Clip(seq.Features[i].GbkLocationString))
+			}
+			return len(locLines), problem
+		}
+	}
+	if len(seq.Features) != len(wants) {
+		return len(locLines), fmt.Sprintf("Parse returns %d features, the record states 2", len(seq.Features))
+	}
+	return len(locLines), ""
+}
+
+// checkText runs the GenBank-text clause on one expression. A failing case is
+// reduced to its smallest failing sub-expressions (each laid out in a record
+// of its own); where parseLocation alone already misreads such a part the
+// class is the shape of the expression, as under parseLocation/post/eval,
+// otherwise it is the layout: the number of lines the location takes.
+func (r *c02Runs) checkText(parent string, x *c02Node) {
+	v := r.textEval
+	lines, problem := c02TextCheck(parent, x, c02LocCols, false)
+	if lines == 0 {
+		return
+	}
+	text := c02Print(x)
+	v.Case(strconv.Itoa(len(parent))+":"+text, lines >= 2)
+	if problem == "" {
+		return
+	}
+	if atomic.AddInt64(&r.textFailures, 1) > 64 {
+		return // the record keeps three per class; the blame below is costly
+	}
+	fails := func(y *c02Node) bool { _, p := c02TextCheck(parent, y, c02LocCols, false); return p != "" }
+	seen := map[string]bool{}
+	for _, m := range c02Minimal(x, fails, nil) {
+		n, _ := c02TextCheck(parent, m, c02LocCols, false)
+		class := "location-on-one-line"
+		if pe, _, _ := c02ParseCheck(parent, m, false); pe != "" {
+			class = c02Shape(m)
+		} else if n == 2 {
+			class = "location-over-two-lines"
+		} else if n >= 3 {
+			class = "location-over-three-lines" // three or more
+		}
+		if seen[class] || r.saturated(v, class) {
+			continue
+		}
+		seen[class] = true
+		_, p := c02TextCheck(parent, m, c02LocCols, true)
+		if strings.HasPrefix(p, "HARNESS") {
+			r.harness.Do(func() { r.harnessMsg = p })
+			continue
+		}
+		ll, _ := c02WrapLoc(c02Print(m), c02LocCols)
+		in := c02Print(m)
+		if in != text {
+			p += " (smallest failing part of " + c02Clip(text) + ")"
+		}
+		v.Fail(class, "parent="+c02Clip(parent)+" location on "+strconv.Itoa(n)+" line(s):\n"+strings.Join(ll, "\n"), p)
+	}
+}
+
+// c02LongJoins: joins of 2..6 operands whose coordinates have as many digits
+// as the parent allows, with plain, complemented and alternating operands and
+// as a whole inside complement(): from one line to three and more.
+func c02LongJoins(plen int) []*c02Node {
+	var out []*c02Node
+	for arity := 2; arity <= 6; arity++ {
+		for style := 0; style < 4; style++ {
+			x := &c02Node{kind: 'j'}
+			for i := 0; i < arity; i++ {
+				// operand i lies in the top half of the parent
+				hi := plen - (arity-1-i)*(plen/20)
+				lo := hi - plen/40
+				if lo < 1 {
+					lo = 1
+				}
+				if hi < lo {
+					hi = lo
+				}
+				var k *c02Node
+				if hi == lo {
+					k = &c02Node{kind: 'b', n: lo, m: lo}
+				} else {
+					k = &c02Node{kind: 's', n: lo, m: hi}
+				}
+				if style == 1 || (style == 2 && i%2 == 0) {
+					k = &c02Node{kind: 'c', kids: []*c02Node{k}}
+				}
+				x.kids = append(x.kids, k)
+			}
+			if style == 3 {
+				x = &c02Node{kind: 'c', kids: []*c02Node{x}}
+			}
+			out = append(out, x)
+		}
+	}
+	return out
 }
 
 // ------------------------------------------------------- enumeration ----
@@ -859,7 +1078,15 @@ func TestVerifC02(t *testing.T) {
 		build: newVerifRun("C02", "io/genbank.BuildLocationString/post/insdc",
 			domain("BuildLocationString of the same structures is accepted by the strict independent INSDC reader and denotes the same bases and the same partial ends (< and > per span); complement of complement left out as above; non-trivial = has an operator or a marker")),
 	}
-	for _, v := range []*verifRun{r.parseEval, r.parsePartial, r.structEval, r.build} {
+	textParents := []int{9, 99, 999, 2000}
+	r.textEval = newVerifRun("C02", "io/genbank.Parse/post/location-eval",
+		"location parsed from GenBank text: an independent writer lays out a flat-file record (LOCUS, DEFINITION .. ORGANISM, feature table with key in column 6 and location in column 22, ORIGIN rows of 60 lower-case letters, //) "+
+			"with the location t as its first feature, broken after commas (at any depth) into lines of at most 58 columns (columns 22-79), as many lines as that takes (one to three for the long joins below, up to dozens for the nested joins of the random part), followed by a second feature 1..3 (1..n on a shorter parent), each with one /label qualifier; "+
+			"demanded: Parse returns both features, no panic, and GetSequence of each equals the independent INSDC evaluation c02Eval(parent, t) in lower case; "+
+			"locations with a comma-free piece longer than 58 columns are left out. Domain: joins of 2..6 operands with coordinates of as many digits as the parent has, operands all plain / all complement() / alternating / the join inside complement(), on parents of length {9,99,999,2000} (1 to 3 and more lines), "+
+			"plus every tree of the random part below ("+strconv.Itoa(nRandom)+" seeded trees, operators nested to depth 4, joins of 2..6 operands, single bases, spans, optional markers, ACGT parents of length 1..2000); non-trivial = the location takes two or more lines. "+
+			"A failing case is named after the expression shape when parseLocation alone misreads its smallest failing part, else after the number of lines that part takes (location-on-one-line, -over-two-lines, -over-three-lines = three or more)")
+	for _, v := range []*verifRun{r.parseEval, r.parsePartial, r.structEval, r.build, r.textEval} {
 		v.Sampled()
 	}
 
@@ -877,6 +1104,10 @@ func TestVerifC02(t *testing.T) {
 				}
 			}
 		}
+	}
+	if ll, ok := c02WrapLoc("join(complement(1001..1100),complement(1200..1250),1300..1400,complement(1500..1600),1700..1800,complement(1900..2000))", c02LocCols); !ok ||
+		strings.Join(ll, "|") != "join(complement(1001..1100),complement(1200..1250),|1300..1400,complement(1500..1600),1700..1800,|complement(1900..2000))" {
+		t.Fatalf("layout self-check: %q %v", ll, ok)
 	}
 	for _, bad := range []string{"1..5>", "4..", "join(1..2)", "join(1..2,)", "complement(1..2", "<3", "0..2", "1..2x", ""} {
 		if _, err := c02Read(bad); err == nil {
@@ -944,8 +1175,16 @@ func TestVerifC02(t *testing.T) {
 	close(ch)
 	wg.Wait()
 
-	// random part
+	// GenBank text: long joins, from one line to three and more, smallest first
 	seed := verifSeed()
+	for _, plen := range textParents {
+		parent := c02RandParent(rand.New(rand.NewSource(seed*1000003+int64(plen))), plen)
+		for _, x := range c02LongJoins(plen) {
+			r.checkText(parent, x)
+		}
+	}
+
+	// random part
 	for w := 0; w < workers; w++ {
 		wg.Add(1)
 		go func(w int) {
@@ -960,7 +1199,9 @@ func TestVerifC02(t *testing.T) {
 				}
 				parent := c02RandParent(rng, plen)
 				depth := 1 + rng.Intn(4)
-				r.check(parent, c02RandTree(rng, plen, depth, true), nil)
+				x := c02RandTree(rng, plen, depth, true)
+				r.check(parent, x, nil)
+				r.checkText(parent, x)
 			}
 		}(w)
 	}
@@ -973,6 +1214,7 @@ func TestVerifC02(t *testing.T) {
 	r.parsePartial.Done()
 	r.structEval.Done()
 	r.build.Done()
+	r.textEval.Done()
 }
 
 func c02FullUpTo(capFull, capCases int) string {
